@@ -521,6 +521,11 @@ func fixedGenerated() []smallFile {
 			out = append(out, smallFile{fmt.Sprintf("generated-%s-%d", in.Kind, seed), in.Kind, in.Data})
 		}
 	}
+	// XMP packets (the corpus sample is too long to be swept): one bare, one behind bytes that precede the root element
+	packet := `<x:xmpmeta xmlns:x="adobe:ns:meta/"><rdf:RDF xmlns:rdf="http://www.w3.org/1999/02/22-rdf-syntax-ns#"><rdf:Description rdf:about="" xmlns:tiff="http://ns.adobe.com/tiff/1.0/" tiff:Make="Canon" tiff:Orientation="6">` +
+		`<tiff:Model>EOS R5</tiff:Model><dc:subject xmlns:dc="http://purl.org/dc/elements/1.1/"><rdf:Bag><rdf:li>a</rdf:li><rdf:li>b &amp; c</rdf:li></rdf:Bag></dc:subject></rdf:Description></rdf:RDF></x:xmpmeta>`
+	out = append(out, smallFile{"fixed-xmp-packet", "xmp", []byte(packet)})
+	out = append(out, smallFile{"fixed-xmp-packet-behind-junk", "xmp", []byte("<?xpacket begin=\"\xef\xbb\xbf\" id=\"W5M0MpCehiHzreSzNTczkc9d\"?>\n" + strings.Repeat(" ", 300) + packet + "<?xpacket end=\"w\"?>")})
 	return out
 }
 
